@@ -60,3 +60,41 @@ theorem relay_unlabelled (a : OAns) (m : String) (l : Label) (h : ¬ (200 ≤ an
   simp [h]
 
 end Rv.Fetch
+
+/-! ### the text of the `Cache-Status` header (RFC 9211) -/
+namespace Rv.Labels
+open Rv Rv.Fetch
+
+/-- `strings.Join(xs, "; ")`. -/
+def joinParams : List Str → Str
+  | [] => []
+  | [a] => a
+  | a :: rest => a ++ s "; " ++ joinParams rest
+
+/-- the members of the `Cache-Status` item, in the order the proxy writes them: the cache's name, then
+    `hit` / `hit; detail="revalidated"` / `miss`, then `fwd=stale` (the only forward reason the machine produces),
+    `fwd-status=N`, `stored`, and `ttl=N` when the response comes from a cache entry (`cached`) that was already
+    stored before this request (hit or revalidated). -/
+def cacheStatusParams (cs : CacheStatus) (cached : Bool) (ttl : Nat) : List Str :=
+  [s "reservoir"] ++
+  (match cs.label with
+    | .hit => [s "hit"]
+    | .revalidated => [s "hit; detail=\"revalidated\""]
+    | .miss => [s "miss"]
+    | .none => []) ++
+  (if cs.fwdStale then [s "fwd=stale"] else []) ++
+  (match cs.fwdStatus with
+    | some n => [s "fwd-status=" ++ toDec n]
+    | none => []) ++
+  (if cs.stored then [s "stored"] else []) ++
+  (if cached && (decide (cs.label = .hit) || decide (cs.label = .revalidated)) then [s "ttl=" ++ toDec ttl] else [])
+
+/-- the value of the `Cache-Status` header. -/
+def cacheStatusString (cs : CacheStatus) (cached : Bool) (ttl : Nat) : Str :=
+  joinParams (cacheStatusParams cs cached ttl)
+
+/-- the same without the `ttl` member: what the correspondence harness compares (it cuts the header at "; ttl=",
+    the remaining life time being compared by the real-time family). -/
+def cacheStatusNoTtl (cs : CacheStatus) : Str := cacheStatusString cs false 0
+
+end Rv.Labels
